@@ -55,7 +55,7 @@ CHECKS.update({
     "C13": ("fault_enumeration",
             "fault injection over generated data directories (structure-aware single-fault generator), round-trip oracle against the pre-damage dump",
             "Generated data directories (histories with snapshots, rotation, compaction, restarts) x generated single faults per file class (MANIFEST, newest/non-final/unlisted WAL, primary/stale snapshot): bit flips at structural offsets parsed from the files (magic, frame length, CRC, entry header, seq_no, snapshot size/version/last_wal_seq, every manifest byte) and random offsets, truncation at frame boundaries +-1 and random lengths, deletion. Strict recover must return Err or exactly the pre-damage dump; faults on the newest listed segment may also yield a frame-prefix replay (the property's exclusion). ~28 faults per directory, 1500 directories in the quick tier.",
-            "Engine-level strict recovery. Snapshot size-field faults are recovered in a child process (the engine may abort on an unbounded allocation; an abort counts as refusing to start). Two listed known findings (C13-F1a/b) are counted and the search continues behind them.",
+            "Part damage: engine-level strict recovery with structure-aware faults (plus a directed MANIFEST fault: one listed segment name replaced by another listed name, what a single flipped bit does when two time-based names are neighbours). Part server: directories produced by the real kyrodb_server (gRPC writes, snapshots, rotation, SIGTERM), 3-8 byte-level faults each, started through the real binary in strict mode with fresh start disabled: it must exit or serve exactly the pre-damage census. Snapshot size-field faults are recovered in a child process (the engine may abort on an unbounded allocation; an abort counts as refusing to start). Two listed known findings (C13-F1a/b) are counted and the search continues behind them.",
             "DESIGN.md §3 C13"),
 })
 
@@ -124,7 +124,7 @@ CHECKS.update({
     "C18": ("exploration",
             "exhaustive enumeration of the discrete configuration grid x delivery channel against a one-directional oracle",
             "The complete cross product of the 11 safety-relevant settings (72,576 rows: environment incl. case/whitespace variants x fsync x snapshot interval x recovery mode x cache strategy x auth x rate limit x observability auth x fresh-start x TLS x 7 bind hosts) is loaded through the real KyroDbConfig::load from generated TOML files (complete in both tiers), YAML files and a seeded per-setting mix of file / KYRODB__ environment override / default (complete in thorough, seeded slices in quick). If load returns Ok for a production/pilot row, every safety condition of the property must hold for the intended values.",
-            "One-directional, as the property: nothing is asserted about rejected rows. The server binary's refusal to start on a rejected configuration is exercised by the server driver rows. The environment channel is process-global and runs single-threaded.",
+            "One-directional, as the property: nothing is asserted about rejected rows. The server binary's refusal to start on a rejected configuration is exercised by the server driver rows. The environment channel is process-global and runs single-threaded. Part server: a seeded sample of rows violating exactly one stated condition (6 per condition in quick, 40 in thorough; a seeded quarter of the settings delivered through the child's KYRODB__ environment) plus accepted benchmark controls, started through the real kyrodb_server binary: a rejected row must exit non-zero without opening its port (still running after 15 s = violation), a control must open it.",
             "DESIGN.md §3 C18"),
     "C19": ("exploration",
             "property-based testing on the real clock with bounds that time can only loosen; clock-free rules on sequential scripts",
